@@ -157,8 +157,71 @@ func GenCont(r *simrt.Rand, excl map[string]bool) *ContProg {
 func st(kind, stmt string) (ContOp, bool) { return ContOp{Kind: kind, Stmt: stmt}, true }
 func ex(kind, expr string) (ContOp, bool) { return ContOp{Kind: kind, Expr: expr}, true }
 
+// nestedOp: lists that contain other pool lists (containment is by reference,
+// copies are shallow).
+func (g *cgen) nestedOp() (ContOp, bool) {
+	r := g.r
+	z := r.Intn(nAlias)
+	xi, okx := g.of("list")
+	yi, _ := g.of("list")
+	ni, okn := g.of("nested")
+	if !okn || r.Chance(1, 4) {
+		if !okx {
+			return ContOp{}, false
+		}
+		if z == xi || z == yi {
+			return ContOp{}, false
+		}
+		g.typ[z] = "nested"
+		return st("nested.new", fmt.Sprintf("%s = [%s, %s]", a(z), a(xi), a(yi)))
+	}
+	n := a(ni)
+	switch r.Intn(12) {
+	case 0, 1:
+		return st("nested.inner-append", fmt.Sprintf("%s[%d].append(%s)", n, r.Intn(2), g.val()))
+	case 2:
+		return st("nested.inner-setitem", fmt.Sprintf("%s[%d][0] = %s", n, r.Intn(2), g.val()))
+	case 3:
+		return st("nested.rebind-slot", fmt.Sprintf("%s[%d] = [%s]", n, r.Intn(2), g.val()))
+	case 4:
+		if z == ni {
+			return ContOp{}, false
+		}
+		g.typ[z] = "nested"
+		return st("nested.copy."+[]string{"ctor", "slice", "addempty"}[z%3], fmt.Sprintf("%s = %s", a(z), []string{"list(" + n + ")", n + "[:]", n + " + []"}[z%3]))
+	case 5:
+		if z == ni {
+			return ContOp{}, false
+		}
+		g.typ[z] = "nested"
+		return st("nested.mul", fmt.Sprintf("%s = %s * 2", a(z), n))
+	case 6:
+		if !okx {
+			return ContOp{}, false
+		}
+		return ex("nested.contains", fmt.Sprintf("(%s in %s, [%s] in %s)", a(xi), n, g.val(), n))
+	case 7:
+		mi, _ := g.of("nested")
+		return ex("nested.eq", fmt.Sprintf("(%s == %s, %s is %s, %s[0] is %s[0])", n, a(mi), n, a(mi), n, a(mi)))
+	case 8:
+		if !okx {
+			return ContOp{}, false
+		}
+		return st("nested.append-alias", fmt.Sprintf("%s.append(%s)", n, a(xi)))
+	case 9:
+		return st("nested.inner-iadd", fmt.Sprintf("%s[0] += [%s]", n, g.val()))
+	case 10:
+		return st("nested.del-slot", fmt.Sprintf("del %s[0]", n))
+	default:
+		return ex("nested.len", fmt.Sprintf("(len(%s), [len(_e) for _e in %s])", n, n))
+	}
+}
+
 func (g *cgen) op(mixed bool) (ContOp, bool) {
 	r := g.r
+	if r.Chance(1, 8) {
+		return g.nestedOp()
+	}
 	switch r.Intn(10) {
 	case 0, 1, 2, 3, 4, 5:
 		return g.listOp()
